@@ -866,3 +866,31 @@ def rule_fast_window(fx, col):
         col.add('FAST-WINDOW', '%s|quiet between publish and ownership' % b.fname, not bad,
                 '; '.join(bad) or 'from the debt publish (%s) until the debt is owned by a protection or paid back only atomics, casts and branches run (%d blocks)' % (b.loc(pbb), len(region)), b.loc(pbb))
     col.floor('FAST-WINDOW', 'fast-path windows', n, 1)
+
+
+def rule_confirmed_origin(fx, col):
+    """C03 / C12: a load returns a pointer that was confirmed to be in THIS cell while the reader's debt was visible
+    (equal re-read), or a hand-over validated by the helper (ADDR-GUARD). The "debt already paid by someone else" arm of
+    the fast path returns the published pointer WITHOUT such a confirmation: debts are keyed by the bare address, so the
+    payer may have been a writer of another container whose value now lives at a recycled address."""
+    cx = O.ctx(fx)
+    n = 0
+    for b in fx.lib.bodies:
+        pubs = [(bb, t, cb) for bb, t, cb in cx.local_calls(b) if cx.publishes_fast_debt(cb.key) and not b.is_cleanup(bb)
+                and 'debt::Debt' in b.local_ty(t['dest']['local'])]
+        cell = [s for s in cx.summ.sites_by_body.get(b.key, ()) if s.cls == 'cell' and s.op == 'load']
+        if not pubs or not cell:
+            continue
+        for (nbb, pop, st, dop) in _prot_constructions(b):
+            n += 1
+            if st == 'Some':
+                col.ok('CONFIRMED-ORIGIN', '%s|borrowing protection' % b.fname, 'built on the equal outcome of the re-read (checked by PUBLISH-CONFIRM)', b.loc(nbb))
+            else:
+                confirmed = False
+                for (sbb, truth, d) in _switch_guard(b, nbb):
+                    if d[0] == 'rv' and d[3]['k'] == 'binop' and d[3]['op'] in ('Eq', 'Ne') and ((d[3]['op'] == 'Eq') == truth):
+                        confirmed = True
+                col.add('CONFIRMED-ORIGIN', '%s|owning protection for an unconfirmed pointer' % b.fname, confirmed,
+                        'after ptr != confirm and a failed pay-back the published pointer is returned as the loaded value: whoever paid the debt '
+                        'may be a writer of ANOTHER container holding a different value at the same (recycled) address', b.loc(nbb))
+    col.floor('CONFIRMED-ORIGIN', 'fast-path constructions', n, 1)
